@@ -186,11 +186,18 @@ def tlc_eval(module, recs, env=None, chunk=None, procs=NCPU, timeout=1800, cfg='
 # ---------------------------------------------------------------------------------------------
 
 def load_known(pid):
-    fn = os.path.join(VERIF, 'known_findings.json')
-    if not os.path.exists(fn):
-        return {}
-    data = json.load(open(fn))
-    return {f['key']: f for f in data.get('findings', []) if f.get('property') == pid and f.get('status') == 'known'}
+    """Known findings (status known) of property pid: known_findings.json plus known_findings.d/*.json."""
+    import glob
+    files = [os.path.join(VERIF, 'known_findings.json')] + sorted(glob.glob(os.path.join(VERIF, 'known_findings.d', '*.json')))
+    res = {}
+    for fn in files:
+        if not os.path.exists(fn):
+            continue
+        data = json.load(open(fn))
+        for f in data.get('findings', []):
+            if f.get('property') == pid and f.get('status') == 'known':
+                res[f['key']] = f
+    return res
 
 
 class Check:
